@@ -151,6 +151,22 @@ Example C26_ex_combinators :
           [ ([102], 1462510018, 2823855066, 1, 1); ([103], 3012543164, 3272076891, 2, 1) ]).
 Proof. vm_compute. reflexivity. Qed.
 
+(** declaration order is arbitrary: the constructors of a union need not be adjacent (the types table is looked up by type
+    name).   a1#00000011 = A;  b#00000100 = B;  a2#00001000 = A;  ---functions--- f = B;  ---types--- a3#00010000 = A;  b2#00100000 = B; *)
+Definition il_cs : list comb :=
+  [ mkComb [97; 49] 17 false [65] 0 [] [] [];
+    mkComb [98] 256 false [66] 0 [] [] [];
+    mkComb [97; 50] 4096 false [65] 0 [] [] [];
+    mkComb [102] 7 true [66] 0 [] [] [];
+    mkComb [97; 51] 65536 false [65] 0 [] [] [];
+    mkComb [98; 50] 1048576 false [66] 0 [] [] [] ].
+Example C26_ex_interleaved_constructors :
+  option_map (fun d => (map (fun t => (t_id t, t_name t, t_cnum t, t_flags t)) (d_types d),
+                        map (fun e => (ce_id e, ce_tname e)) (d_constructors d ++ d_functions d))) (tlo 1 0 il_cs)
+  = Some ([ ([35], 1885708031, 0, 0); ([65], 69649, 3, 16); ([66], 1048832, 2, 16); ([84; 121; 112; 101], 753727511, 0, 0) ],
+          [ ([97; 49], 69649); ([98], 1048832); ([97; 50], 69649); ([97; 51], 69649); ([98; 50], 1048832); ([102], 1048832) ]).
+Proof. vm_compute. reflexivity. Qed.
+
 Example C26_ex_hypotheses : builtins_canonical ex_cs /\ tags_ok ex_cs /\ NoDup (map c_name ex_cs).
 Proof.
   split; [|split].
